@@ -120,3 +120,133 @@ func VerifHarness_SpawnStaggered() {
 	errors.VerifUntag("got")
 	errors.VerifAssert("wait-returned-after-all-cores-finished", errors.VerifLiveGoroutines() <= base)
 }
+
+// Spawn arguments: one spawned function, arguments of different types and of equal types, unconstrained values.
+// main does nothing else, so the output is fully prescribed (Wait returns after the spawned core finished).
+var verifSpawnArgProgs = []struct {
+	name, code string
+	want       func(a, b, c int64, p bool) string
+}{
+	{"mixed-types", "fn worker(name: str, count: int, flag: bool, tail: str) {\n  println(name + \"!\", count + 1, !flag, tail + \"?\");\n}\nfn main() {\n  spawn worker(\"abc\", A, P, \"z\");\n}\n",
+		func(a, b, c int64, p bool) string { return "abc! " + fmt.Sprint(a+1) + " " + fmt.Sprint(!p) + " z?\n" }},
+	{"equal-types", "fn w(a: int, b: int, c: int) {\n  println(a - b, c);\n}\nfn main() {\n  spawn w(A, B, C);\n}\n",
+		func(a, b, c int64, p bool) string { return fmt.Sprint(a-b) + " " + fmt.Sprint(c) + "\n" }},
+	{"compound-values", "fn w(l: [int], o: { k: int }, n: int) {\n  println(l.len() + n, l[0], o.k);\n}\nfn main() {\n  spawn w([A, B], new { k: C }, 1);\n}\n",
+		func(a, b, c int64, p bool) string { return "3 " + fmt.Sprint(a) + " " + fmt.Sprint(c) + "\n" }},
+	{"one-argument", "fn w(a: int) {\n  println(a * 2);\n}\nfn main() {\n  spawn w(A);\n}\n",
+		func(a, b, c int64, p bool) string { return fmt.Sprint(a*2) + "\n" }},
+}
+
+func VerifHarness_SpawnArgs() {
+	mode := errors.VerifParam("mode", 1)
+	t := verifSpawnArgProgs[errors.VerifNdIntRange("template", 0, len(verifSpawnArgProgs)-1)]
+	errors.VerifTag("template", t.name)
+	a, b, c := errors.VerifNdInt64("A"), errors.VerifNdInt64("B"), errors.VerifNdInt64("C")
+	p := errors.VerifNdBool("P")
+	inputs := []verifInput{{name: "A", kind: 'i', i: a}, {name: "B", kind: 'i', i: b}, {name: "C", kind: 'i', i: c}, {name: "P", kind: 'b', b: p}}
+	an := verifAnalyze(t.code, nil, inputs, true)
+	if an.hasError {
+		errors.VerifTag("diag", an.describe())
+		errors.VerifAssert("accepted", false)
+		return
+	}
+	errors.VerifReached("accepted")
+	var o verifOutcome
+	backend := 0
+	if mode != 1 {
+		backend = errors.VerifNdIntRange("backend", 0, 1)
+	}
+	errors.VerifTag("backend", []string{"vm", "tree"}[backend])
+	if mode != 2 {
+		errors.VerifTag("__ignore_panic", "C02")
+	}
+	panicked, msg := errors.VerifPanics(func() {
+		if backend == 0 {
+			o = verifRunVM(an, nil, inputs, verifLimits, newVerifCtx())
+		} else {
+			o = verifRunTree(an, nil, inputs, 100, newVerifCtx())
+		}
+	})
+	if mode == 2 {
+		if panicked {
+			errors.VerifTag("panic", errors.VerifNorm(msg))
+		}
+		errors.VerifAssert("spawn-never-crashes-the-host", !panicked)
+		errors.VerifReached("ran")
+		return
+	}
+	if panicked {
+		errors.VerifReached("panicked-skipped")
+		return
+	}
+	errors.VerifReached("ran")
+	errors.VerifAssert("run-completes", o.class == "ok")
+	errors.VerifAssert("spawned-function-sees-its-arguments-in-order", o.out == t.want(a, b, c, p))
+}
+
+// Values handed to several cores: the same range / list value is given to two spawned functions (as argument and
+// through a global); each core must see the whole value, whatever the interleaving.
+var verifSpawnSharedProgs = []struct {
+	name, code string
+	lines      []string
+}{
+	{"range-argument", "fn w(r: range, tag: int) {\n  let s = 0;\n  for i in r {\n    println(tag * 100 + i);\n    s += i;\n  }\n  println(tag * 1000 + s);\n}\nfn main() {\n  let r = 0..3;\n  spawn w(r, 1);\n  spawn w(r, 2);\n}\n",
+		[]string{"100\n", "101\n", "102\n", "1003\n", "200\n", "201\n", "202\n", "2003\n"}},
+	{"range-global", "let R = 0..=2;\nfn w(tag: int) {\n  let s = 0;\n  for i in R {\n    println(tag * 100 + i);\n    s += i;\n  }\n  println(tag * 1000 + s);\n}\nfn main() {\n  spawn w(1);\n  spawn w(2);\n}\n",
+		[]string{"100\n", "101\n", "102\n", "1003\n", "200\n", "201\n", "202\n", "2003\n"}},
+	{"list-argument-read-only", "fn w(l: [int], tag: int) {\n  let s = 0;\n  for x in l {\n    s += x;\n  }\n  println(tag * 1000 + s + l.len());\n}\nfn main() {\n  let l = [1, 2, 3];\n  spawn w(l, 1);\n  spawn w(l, 2);\n}\n",
+		[]string{"1009\n", "2009\n"}},
+}
+
+func VerifHarness_SpawnShared() {
+	t := verifSpawnSharedProgs[errors.VerifNdIntRange("template", 0, len(verifSpawnSharedProgs)-1)]
+	errors.VerifTag("template", t.name)
+	an := verifAnalyze(t.code, nil, nil, true)
+	if an.hasError {
+		errors.VerifTag("diag", an.describe())
+		errors.VerifAssert("accepted", false)
+		return
+	}
+	base := errors.VerifLiveGoroutines()
+	var o verifOutcome
+	panicked, msg := errors.VerifPanics(func() { o = verifRunVM(an, nil, nil, verifLimits, newVerifCtx()) })
+	if panicked {
+		errors.VerifTag("panic", errors.VerifNorm(msg))
+	}
+	errors.VerifAssert("spawn-never-crashes-the-host", !panicked)
+	if panicked {
+		return
+	}
+	errors.VerifReached("returned")
+	errors.VerifAssert("run-completes", o.class == "ok")
+	errors.VerifTag("got", errors.VerifNorm(o.out))
+	errors.VerifAssert("every-core-sees-the-whole-value-it-was-given", verifIsInterleavingOf(o.out, t.lines))
+	errors.VerifUntag("got")
+	errors.VerifAssert("wait-returned-after-all-cores-finished", errors.VerifLiveGoroutines() <= base)
+}
+
+// verifIsInterleavingOf: out consists of exactly the given lines, each once, in any order (the output is concrete here).
+func verifIsInterleavingOf(out string, lines []string) bool {
+	used := make([]bool, len(lines))
+	rest := out
+	for len(rest) > 0 {
+		found := false
+		for i, l := range lines {
+			if !used[i] && verifHasPrefix(rest, l) {
+				used[i] = true
+				rest = rest[len(l):]
+				found = true
+				break
+			}
+		}
+		if !found {
+			return false
+		}
+	}
+	for _, u := range used {
+		if !u {
+			return false
+		}
+	}
+	return true
+}
